@@ -291,11 +291,10 @@ class ManifestContext:
                 f'No video representation of stream {stream.directory} matches the request')
         if timing:
             opts.availabilityStartTime = timing.availabilityStartTime
-            if (
-                    opts.mode != 'live' or
-                    not opts.timeShiftBufferDepth or
-                    opts.timeShiftBufferDepth < 0):
+            if opts.mode != 'live':
                 opts.timeShiftBufferDepth = timing.timeShiftBufferDepth
+            elif not opts.timeShiftBufferDepth or opts.timeShiftBufferDepth < 0:
+                opts.timeShiftBufferDepth = DashTiming.DEFAULT_TIMESHIFT_BUFFER_DEPTH
             # otherwise keep the requested depth in the media and patch URLs: for a
             # stream younger than that depth, timing.timeShiftBufferDepth is clamped
             # to its current age and would freeze the window at that size
